@@ -381,6 +381,20 @@ func oracleC15(r *report, g *G, n int, single string) {
 		}
 		r.eval("api", true, "api"+strconv.FormatUint(v, 10))
 	}
+	// a remaining length of five bytes through ReadPacket, whatever the fifth byte and the groups say
+	for _, b0 := range []byte{0xc0, 0xd0, 0x30, 0x40, 0xe0, 0x00} {
+		for _, grp := range [][]byte{{0x80, 0x80, 0x80, 0x80}, {0x83, 0x80, 0x80, 0x80}, {0xff, 0xff, 0xff, 0xff}, {0x80, 0x80, 0x80, 0xff}} {
+			for _, last := range []byte{0x00, 0x01, 0x7f, 0x80} {
+				f := append(append([]byte{b0}, grp...), last)
+				f = append(f, 0, 1, 't', 0, 0, 0, 0, 0)
+				rd := oneChunk(f)
+				if o := readOnce(rd); o.kind >= 0 || rd.got > 6 {
+					r.fail("vb-stream-five-bytes", "R 1 "+hexs(f), fmt.Sprintf("a five-byte remaining length was taken: %s after %d bytes", trunc(o.verdict()), rd.got))
+				}
+				r.eval("packet-level-five-bytes", true, hexs(f))
+			}
+		}
+	}
 	// the property length and the subscription identifiers at their call sites: packets whose
 	// property section is exactly 126..129, 255..257, 383..385, 512, 16383..16385 bytes long,
 	// every type; PUBLISH with one and several subscription identifiers at every boundary
@@ -827,6 +841,25 @@ func oracleDecode(r *report, g *G, n int, single string, bounded bool) {
 		}
 	}
 	g.hostileFrames(n, check)
+	// any defined property, any number of times, in any packet (the encoder never does this)
+	for i := 0; i < n/4+100; i++ {
+		check(g.soupFrame())
+		if g.chance(30) {
+			check(g.mutate(g.soupFrame()))
+		}
+	}
+	// CONNECT bodies with and without will, user name and password under every one of the 256
+	// flag bytes (the flags promise fields that are or are not there)
+	for _, cs := range [][]string{{"SetClientID:63"}, {"SetClientID:63", "SetWill:[SetTopicName:74;SetPayload:70;SetQoS:1;SetRetain:1]"},
+		{"SetUsername:75", "SetPassword:70"}, {"SetWill:[SetTopicName:74;AddUserProp:6b:76]", "SetUsername:75", "SetPassword:70", "AddUserProp:6b:76"}} {
+		f := frameOf(build(1, cs))
+		_, hl := splitFrame(f)
+		for fl := 0; fl < 256; fl++ {
+			f2 := append([]byte{}, f...)
+			f2[hl+7] = byte(fl) // name (6 bytes), level, flags
+			check(f2)
+		}
+	}
 	r.sample(map[string]string{"case": "R 1 400100", "expect": "error, no panic"})
 	r.sample(map[string]string{"case": "R 1 8206000100000561", "expect": "returns with an error"})
 }
@@ -877,6 +910,49 @@ func oracleAlloc(r *report, g *G) {
 			}
 		}
 		measure(append(append([]byte{f[0]}, vbEnc(uint64(len(body)))...), body...), "alloc-long-prefix")
+	}
+	// thousands of small list elements (user properties of the packet and of the will,
+	// subscription identifiers, filters, reason codes): memory stays proportional to the frame
+	many := func(unit []byte, count int) []byte {
+		var b []byte
+		for i := 0; i < count; i++ {
+			b = append(b, unit...)
+		}
+		return b
+	}
+	up := []byte{0x26, 0, 1, 'k', 0, 1, 'v'}
+	for _, count := range []int{3000, 6000} {
+		ups := many(up, count)
+		sec := append(vbEnc(uint64(len(ups))), ups...)
+		frame := func(b0 byte, body []byte) []byte { return append(append([]byte{b0}, vbEnc(uint64(len(body)))...), body...) }
+		sids := many([]byte{0x0b, 5}, count)
+		measureBig := func(f []byte, class string) {
+			var m0, m1 runtimeMem
+			readOnce(oneChunk(f))
+			best := ^uint64(0)
+			limit := uint64(200*len(f) + 1<<20)
+			for try := 0; try < 3 && best > limit; try++ {
+				readMem(&m0)
+				readOnce(oneChunk(f))
+				readMem(&m1)
+				if d := m1.total - m0.total; d < best {
+					best = d
+				}
+			}
+			if best > limit {
+				r.fail("decode-alloc", "R 1 "+trunc(hexs(f)), fmt.Sprintf("%s: allocated %d bytes for a frame of %d bytes with %d list elements", class, best, len(f), count))
+			}
+			r.eval("alloc-many-elements", true, class+strconv.Itoa(count))
+		}
+		measureBig(frame(0x20, append([]byte{0, 0}, sec...)), "CONNACK user properties")
+		measureBig(frame(0xe0, append([]byte{0}, sec...)), "DISCONNECT user properties")
+		measureBig(frame(0x30, append(append([]byte{0, 1, 't'}, sec...), 'p')), "PUBLISH user properties")
+		measureBig(frame(0x30, append([]byte{0, 1, 't'}, append(vbEnc(uint64(len(sids))), sids...)...)), "PUBLISH subscription identifiers")
+		measureBig(frame(0x10, append(append([]byte{0, 4, 'M', 'Q', 'T', 'T', 5, 2, 0, 9}, sec...), 0, 1, 'c')), "CONNECT user properties")
+		measureBig(frame(0x10, append(append([]byte{0, 4, 'M', 'Q', 'T', 'T', 5, 6, 0, 9, 0, 0, 1, 'c'}, sec...), 0, 1, 'w', 0, 1, 'p')), "CONNECT will user properties")
+		measureBig(frame(0x82, append([]byte{0, 7, 0}, many([]byte{0, 1, 'f', 1}, count)...)), "SUBSCRIBE filters")
+		measureBig(frame(0xa2, append([]byte{0, 7, 0}, many([]byte{0, 1, 'f'}, count)...)), "UNSUBSCRIBE filters")
+		measureBig(frame(0x90, append([]byte{0, 7, 0}, many([]byte{1}, count*4)...)), "SUBACK reason codes")
 	}
 	for _, f := range [][]byte{{0x30, 3, 0xff, 0xff, 'a'}, {0x30, 3, 0xff, 0xfe, 'a'}, {0xa2, 6, 0, 1, 0, 0xff, 0xff, 'a'},
 		{0x82, 6, 0, 1, 0, 0xff, 0xff, 'a'}, {0x10, 4, 0xff, 0xff, 'M', 'Q'}, {0xe0, 7, 0, 5, 0x26, 0xff, 0xff, 'a', 'b'},
@@ -977,9 +1053,104 @@ func init() {
 }
 
 // frameFor: a frame for the sequence tests: valid, content-malformed or empty.
+// property table of MQTT v5.0 (identifier, wire type: 1 byte, 2 two-byte int, 4 four-byte int,
+// v variable byte int, s string/binary, p pair)
+var propTable = []struct {
+	id byte
+	wt byte
+}{{1, 1}, {2, 4}, {3, 's'}, {8, 's'}, {9, 's'}, {11, 'v'}, {17, 4}, {18, 's'}, {19, 2}, {21, 's'}, {22, 's'}, {23, 1}, {24, 4}, {25, 1},
+	{26, 's'}, {28, 's'}, {31, 's'}, {33, 2}, {34, 2}, {35, 2}, {36, 1}, {37, 1}, {38, 'p'}, {39, 4}, {40, 1}, {41, 1}, {42, 1}}
+
+// soupProps: a well-formed property section holding ANY of the 27 defined properties, with
+// repeats - whether or not the packet it ends up in may carry them
+func (g *G) soupProps(n int) []byte {
+	var ps []byte
+	str := func() []byte {
+		b := g.bytesN(g.pick(4))
+		return append([]byte{0, byte(len(b))}, b...)
+	}
+	for i := 0; i < n; i++ {
+		e := propTable[g.pick(len(propTable))]
+		if g.chance(30) {
+			e = propTable[5] // subscription identifier
+		}
+		ps = append(ps, e.id)
+		switch e.wt {
+		case 1:
+			ps = append(ps, byte(g.pick(2)))
+		case 2:
+			ps = append(ps, byte(g.pick(256)), byte(g.pick(256)))
+		case 4:
+			ps = append(ps, byte(g.pick(256)), byte(g.pick(256)), byte(g.pick(256)), byte(g.pick(256)))
+		case 'v':
+			ps = append(ps, vbEnc(uint64(1+g.pick(300)))...)
+		case 's':
+			ps = append(ps, str()...)
+		case 'p':
+			ps = append(ps, append(append([]byte{0, 1, 'k'}, str()...))...)
+		}
+	}
+	return append(vbEnc(uint64(len(ps))), ps...)
+}
+
+// soupFrame puts such a section where each packet type has its properties
+func (g *G) soupFrame() []byte {
+	props := g.soupProps(1 + g.pick(4))
+	var b0 byte
+	var body []byte
+	switch g.pick(12) {
+	case 0:
+		b0, body = 0x20, append([]byte{0, 0}, props...)
+	case 1:
+		b0, body = 0x30, append(append([]byte{0, 1, 't'}, props...), 'p')
+	case 2:
+		b0, body = byte(0x40+0x10*g.pick(4)), append([]byte{0, 7, 0}, props...)
+		if b0 == 0x60 {
+			b0 = 0x62
+		}
+	case 3:
+		b0, body = 0x82, append(append([]byte{0, 7}, props...), 0, 1, 'a', 1)
+	case 4:
+		b0, body = byte(0x90+0x20*g.pick(2)), append(append([]byte{0, 7}, props...), 0)
+	case 5:
+		b0, body = 0xa2, append(append([]byte{0, 7}, props...), 0, 1, 'a')
+	case 6:
+		b0, body = 0xe0, append([]byte{0}, props...)
+	case 7:
+		b0, body = 0xf0, append([]byte{0}, props...)
+	case 8: // CONNECT
+		b0, body = 0x10, append(append([]byte{0, 4, 'M', 'Q', 'T', 'T', 5, 2, 0, 9}, props...), 0, 1, 'c')
+	case 9: // CONNECT with such a section as will properties
+		b0 = 0x10
+		body = append([]byte{0, 4, 'M', 'Q', 'T', 'T', 5, 6, 0, 9, 0, 0, 1, 'c'}, props...)
+		body = append(body, 0, 1, 'w', 0, 1, 'p')
+	case 10:
+		b0, body = 0x32, append(append([]byte{0, 1, 't', 0, 9}, props...), 'p')
+	default:
+		b0, body = 0x20, append([]byte{1, 0}, props...)
+	}
+	return append(append([]byte{b0}, vbEnc(uint64(len(body)))...), body...)
+}
+
+// padded: the same frame with its remaining length written in a longer, zero-padded form
+func padLength(f []byte) []byte {
+	rl, hl := splitFrame(f)
+	if hl == 0 || hl > 3 || hl+rl != len(f) {
+		return f
+	}
+	hdr := append([]byte{}, f[1:hl]...)
+	hdr[len(hdr)-1] |= 0x80
+	hdr = append(hdr, 0)
+	return append(append([]byte{f[0]}, hdr...), f[hl:]...)
+}
+
 func (g *G) seqFrame() []byte {
 	var f []byte
-	switch g.pick(6) {
+	switch g.pick(8) {
+	case 6:
+		f = g.soupFrame()
+	case 7:
+		f = padLength(g.validFrame())
 	case 0:
 		f = []byte{byte(g.pick(16)<<4 | g.pick(16)), 0}
 	case 1:
@@ -1039,6 +1210,22 @@ func checkSequenceBytes(r *report, g *G, all []byte, label string) {
 	rd := parseScript(sc)
 	pos := 0
 	nframes := 0
+	type earlier struct {
+		p    mq.Packet
+		snap string
+		enc  string
+		f    []byte
+	}
+	var kept []earlier
+	defer func() {
+		// what a call returned is the caller's: later calls (on this or any stream) leave it alone
+		for i, e := range kept {
+			if s, en := snapshot(e.p), encS(e.p); s != e.snap || en != e.enc {
+				r.fail("sequence-result", label, fmt.Sprintf("the packet returned for frame %d (%s) changed while later frames were read: %s, was %s", i, trunc(hexs(e.f)), trunc(s), trunc(e.snap)))
+				return
+			}
+		}
+	}()
 	for pos < len(all) {
 		rl, hl := splitFrame(all[pos:])
 		if hl == 0 || pos+hl+rl > len(all) {
@@ -1047,6 +1234,26 @@ func checkSequenceBytes(r *report, g *G, all []byte, label string) {
 		frame := all[pos : pos+hl+rl]
 		before := rd.got
 		o := readOnce(rd)
+		if o.kind >= 0 && len(kept) < 8 {
+			kept = append(kept, earlier{o.p, snapshot(o.p), encS(o.p), frame})
+		}
+		if o.kind < 0 && o.e != nil {
+			// an error value handed out is the caller's too: decorating it must not show in
+			// the error for the same bytes later
+			var m *mq.Malformed
+			text := o.e.Error()
+			if errors.As(o.e, &m) {
+				func() {
+					defer func() { recover() }()
+					m.SetReasonString("decorated-by-caller")
+					m.SetPacket(mq.NewPingReq())
+				}()
+			}
+			if again := readOnce(oneChunk(frame)); again.e == nil || again.e.Error() != text {
+				r.fail("sequence-result", label, fmt.Sprintf("frame %d (%s): the error for the same bytes changed after the caller modified the first error value: %q, before %q", nframes, trunc(hexs(frame)), fmt.Sprint(again.e), text))
+				return
+			}
+		}
 		alone := readOnce(oneChunk(frame))
 		if o.verdict() != alone.verdict() {
 			r.fail("sequence-result", label, fmt.Sprintf("frame %d (%s): in stream %s, alone %s", nframes, hexs(frame), o.verdict(), alone.verdict()))
@@ -1267,6 +1474,39 @@ func oracleC07(r *report, g *G, n int, single string) {
 
 // ---------------------------------------------------------------- C08
 
+// errors a transport returns: plain ones, ones that wrap io.EOF (tls, websocket layers
+// decorate it), ones that call themselves temporary or timeouts, the standard sentinels
+type netLikeErr struct {
+	msg                string
+	temporary, timeout bool
+}
+
+func (e *netLikeErr) Error() string   { return e.msg }
+func (e *netLikeErr) Temporary() bool { return e.temporary }
+func (e *netLikeErr) Timeout() bool   { return e.timeout }
+
+type wrapsEOF struct{ tag int }
+
+func (e *wrapsEOF) Error() string { return fmt.Sprintf("transport %d: EOF", e.tag) }
+func (e *wrapsEOF) Unwrap() error { return io.EOF }
+
+var sentinelErrs = []error{io.ErrUnexpectedEOF, io.ErrClosedPipe, io.ErrNoProgress, os.ErrDeadlineExceeded, io.ErrShortBuffer,
+	fmt.Errorf("tls: use of closed connection: %w", io.EOF), fmt.Errorf("read tcp: %w", os.ErrDeadlineExceeded)}
+
+func transportErr(g *G) error {
+	switch g.pick(6) {
+	case 0:
+		return &netLikeErr{"i/o timeout", true, true}
+	case 1:
+		return &netLikeErr{"connection reset", g.chance(50), false}
+	case 2:
+		return &wrapsEOF{g.pick(9)}
+	case 3:
+		return sentinelErrs[g.pick(len(sentinelErrs))]
+	}
+	return injectedErr(1 + g.pick(9))
+}
+
 func oracleC08(r *report, g *G, n int, single string) {
 	checkFrame := func(f []byte) {
 		cuts := []int{}
@@ -1282,7 +1522,7 @@ func oracleC08(r *report, g *G, n int, single string) {
 				for fault := 0; fault < 2; fault++ { // EOF / transport error
 					var ferr error = io.EOF
 					if fault == 1 {
-						ferr = injectedErr(1 + g.pick(9))
+						ferr = transportErr(g)
 					}
 					rd := parseScript(g.fragment(f[:k], 0))
 					// a failed transport keeps failing: the error is reported with the
@@ -1433,6 +1673,35 @@ func oracleC16(r *report, g *G, n int, single string) {
 			checkFirst(byte(b), body)
 		}
 	}
+	// big bodies: a type-0 frame of 64 KiB and more keeps all its bytes; frames whose remaining
+	// length needs the third and the fourth length byte are dispatched like any other
+	for _, sz := range []int{65535, 65536, 70000, 2097151, 2097152} {
+		checkFirst(byte(g.pick(16)), g.bytesN(sz))
+	}
+	for _, sz := range []int{16384, 2097151, 2097152, 2100000} {
+		codes := bytesRepeat(byte(g.pick(3)), sz-3)
+		checkFirst(0x90, append([]byte{0, 7, 0}, codes...))
+		checkFirst(0xb0, append([]byte{0, 7, 0}, codes...))
+		checkFirst(byte(0xc0+0x10*g.pick(2)), g.bytesN(sz)) // PINGREQ/PINGRESP ignore their body
+		// an acknowledgement made large by user properties
+		var ups []byte
+		for len(ups) < sz-16 {
+			v := g.bytesN(60000)
+			if rest := sz - 16 - len(ups) - 7; rest < len(v) {
+				if rest < 0 {
+					rest = 0
+				}
+				v = v[:rest]
+			}
+			ups = append(ups, 0x26, 0, 1, 'k', byte(len(v)>>8), byte(len(v)))
+			ups = append(ups, v...)
+		}
+		body := append([]byte{0, 7, 0}, append(vbEnc(uint64(len(ups))), ups...)...)
+		checkFirst(byte(0x40+0x10*g.pick(2)), body)
+		checkFirst(0x62, body)
+		checkFirst(0x70, body)
+		checkFirst(0xe0, body[2:])
+	}
 	r.sample(map[string]string{"first byte": "0x3b", "expect": "PUBLISH dup=1 qos=1 retain=1, rewritten first byte 0x3b"})
 }
 
@@ -1557,6 +1826,15 @@ func (g *G) interleaveRO(cs []string) []string {
 		out = append(out, c)
 	}
 	return out
+}
+
+func hasSetter(k int, name string) bool {
+	for _, st := range settersOf(k) {
+		if st.name == name {
+			return true
+		}
+	}
+	return false
 }
 
 func stripRO(cs []string) []string {
@@ -1712,6 +1990,7 @@ func trunc(s string) string {
 }
 
 func oracleC01(r *report, g *G, n int, single string) {
+	pollute(g) // frames rejected or decoded earlier in the process must not matter
 	if single != "" {
 		f := splitWS(single)
 		if len(f) >= 2 && (f[0] == "H" || f[0] == "W") {
@@ -1771,6 +2050,11 @@ func oracleC01(r *report, g *G, n int, single string) {
 	}
 	for _, bc := range propBoundaryCases(g) {
 		roundTrip(r, bc.k, bc.cs)
+	}
+	// protocol names that resemble the default one
+	for _, nm := range []string{"mqtt", "Mqtt", "MQTt", "mQTT", "MQT", "MQTTT", "MQTT ", " MQTT", "MQIsdp", "MQTT\x00", "\x00MQTT", "MQ", "M"} {
+		roundTrip(r, 1, []string{"SetProtocolName:" + hexs([]byte(nm)), "SetClientID:63"})
+		roundTrip(r, 1, []string{"SetProtocolName:" + hexs([]byte(nm)), "SetProtocolVersion:" + strconv.Itoa(3+g.pick(3)), "SetUsername:75"})
 	}
 	// a will attached twice (the second replaces the first in every respect), with every pair of QoS
 	for q1 := 0; q1 < 3; q1++ {
@@ -1861,6 +2145,24 @@ func oracleC10(r *report, g *G, n int, single string) {
 		return
 	}
 	check(0, nil)
+	for i := 0; i < 20; i++ {
+		body := g.bytesN(1 + g.pick(40))
+		f := append(append([]byte{byte(g.pick(16))}, vbEnc(uint64(len(body)))...), body...)
+		if o := readOnce(oneChunk(f)); o.kind == 0 {
+			w := &scriptWriter{mode: 'A'}
+			nn, err := o.p.WriteTo(w)
+			if err == nil || nn != 0 || len(w.calls) != 0 {
+				r.fail("write-undefined", "R 1 "+hexs(f), fmt.Sprintf("an Undefined read from the wire was written: n=%d err=%v calls=%d", nn, err, len(w.calls)))
+			}
+			u := &mq.Undefined{}
+			u.UnmarshalBinary(body)
+			w = &scriptWriter{mode: 'A'}
+			if nn, err := u.WriteTo(w); err == nil || nn != 0 || len(w.calls) != 0 {
+				r.fail("write-undefined", "U 0 z "+hexs(body), fmt.Sprintf("an Undefined holding data was written: n=%d err=%v", nn, err))
+			}
+			r.eval("undefined-with-data", true, hexs(f))
+		}
+	}
 	for _, k := range allKinds {
 		check(k, nil)
 	}
@@ -2018,6 +2320,39 @@ func oracleC11(r *report, g *G, n int, single string) {
 			check(k, g.interleaveRO(cs))
 		}
 	}
+	// packets that came from the wire: encoded now, and again after the clock has moved on
+	{
+		type dec struct {
+			p    mq.Packet
+			enc  []byte
+			snap string
+			f    []byte
+		}
+		var ds []dec
+		g.domain, g.big = true, false
+		for i := 0; i < 60; i++ {
+			k := g.kind()
+			cs := domainFix(k, g.subset(k, 100))
+			if k == 3 {
+				cs = append(cs, "SetMessageExpiryInterval:"+strconv.Itoa(2+g.pick(1000)))
+			}
+			if k == 1 {
+				cs = append(cs, "SetSessionExpiryInterval:"+strconv.Itoa(2+g.pick(1000)), "SetWill:[SetTopicName:74;SetMessageExpiryInterval:30]", "SetWillDelayInterval:5", "SetKeepAlive:10")
+			}
+			f := frameOf(build(k, cs))
+			if o := readOnce(oneChunk(f)); o.kind == k {
+				ds = append(ds, dec{o.p, frameOf(o.p), snapshot(o.p), f})
+			}
+		}
+		g.domain, g.big = false, true
+		time.Sleep(2100 * time.Millisecond)
+		for _, d := range ds {
+			if e := frameOf(d.p); !bytesEq(e, d.enc) || snapshot(d.p) != d.snap {
+				r.fail("nondeterministic-encoding", "R 1 "+hexs(d.f), "a decoded packet written again two seconds later: "+trunc(hexs(e))+", before "+trunc(hexs(d.enc)))
+			}
+			r.eval("decoded-later", true, hexs(d.f))
+		}
+	}
 	// other processes (fresh hash seeds): same bytes
 	if len(crossCases) > 0 {
 		in := strings.Join(crossCases, "\n") + "\n"
@@ -2124,6 +2459,19 @@ func (s *specPkt) apply(tok string) {
 	case "~Spread":
 		for _, it := range strings.Split(arg, ",") {
 			s.apply("AddFilter:" + it)
+		}
+		return
+	case "~UserProps":
+		for _, it := range strings.Split(arg, ",") {
+			s.apply("AddUserProp:" + it)
+		}
+		return
+	case "~Feed":
+		parts := strings.Split(arg, ">")
+		if v, ok := s.v[parts[0]]; ok {
+			s.v[parts[1]] = v
+		} else {
+			delete(s.v, parts[1])
 		}
 		return
 	case "SetWill":
@@ -2349,12 +2697,70 @@ func oracleC12(r *report, g *G, n int, single string) {
 			cs = append(append(append([]string{}, cs[:at]...), "~Spread:"+strings.Join(items, ",")), cs[at:]...)
 			at2 := at + 1 + g.pick(len(cs)-at)
 			cs = append(append(append([]string{}, cs[:at2]...), "~Reuse"), cs[at2:]...)
+		} else if k == 8 && g.chance(50) {
+			// the caller recycles the TopicFilter variables it passed to AddFilters
+			cs = append(cs, "~Reuse")
+			if g.chance(50) {
+				cs = append(cs, "AddFilter:"+hexs(g.nonEmpty())+":1")
+			}
+		}
+		if (k == 1 || k == 3) && g.chance(30) && len(cs) > 0 {
+			// a slice an accessor returned is handed to another setter of the same packet
+			feeds := map[int][]string{1: {"~Feed:Password>AuthData", "~Feed:AuthData>Password"}, 3: {"~Feed:Payload>CorrelationData", "~Feed:CorrelationData>Payload"}}[k]
+			at := 1 + g.pick(len(cs))
+			cs = append(append(append([]string{}, cs[:at]...), feeds[g.pick(2)]), cs[at:]...)
+		}
+		if hasSetter(k, "AddUserProp") && g.chance(25) {
+			var items []string
+			for j := 0; j < 2+g.pick(3); j++ {
+				g.domain = true
+				items = append(items, strings.TrimPrefix(g.arg(setter{"AddUserProp", "up"}), "AddUserProp:"))
+				g.domain = false
+			}
+			at := g.pick(len(cs) + 1)
+			cs = append(append(append([]string{}, cs[:at]...), "~UserProps:"+strings.Join(items, ",")), cs[at:]...)
 		}
 		if g.chance(40) {
 			cs = g.interleaveRO(cs)
 		}
 		check(k, cs)
 		inDomain = false
+	}
+	// a user property added alone, then several in one call, then one more (any type that has them)
+	for _, k := range allKinds {
+		if hasSetter(k, "AddUserProp") {
+			for n := 2; n <= 5; n++ {
+				var items []string
+				for j := 0; j < n; j++ {
+					items = append(items, hexs([]byte{byte('a' + j)})+":"+hexs([]byte{byte('A' + j)}))
+				}
+				for pre := 0; pre <= 3; pre++ {
+					var cs []string
+					for j := 0; j < pre; j++ {
+						cs = append(cs, "AddUserProp:70"+hexs([]byte{byte('0' + j)})+":76")
+					}
+					cs = append(cs, "~UserProps:"+strings.Join(items, ","), "AddUserProp:7a:7a")
+					inDomain = true
+					check(k, append(append([]string{}, baseCalls(k)...), cs...))
+					inDomain = false
+				}
+			}
+		}
+	}
+	// names whose 32-bit FNV-1a (and other common string hashes) collide, set one after the other
+	for _, pair := range [][2]string{{"costarring", "liquid"}, {"declinate", "macallums"}, {"altarage", "zinke"}, {"altarages", "zinkes"},
+		{"Aa", "BB"}, {"AaAa", "BBBB"}, {"AaBB", "BBAa"}} {
+		for _, cs := range [][]string{
+			{"SetTopicName:" + hexs([]byte(pair[0])), "SetTopicName:" + hexs([]byte(pair[1]))},
+			{"SetTopicName:" + hexs([]byte(pair[1])), "SetResponseTopic:" + hexs([]byte(pair[0])), "SetTopicName:" + hexs([]byte(pair[0])), "SetContentType:" + hexs([]byte(pair[1]))}} {
+			inDomain = true
+			check(3, cs)
+			inDomain = false
+		}
+		check(1, []string{"SetClientID:" + hexs([]byte(pair[0])), "SetUsername:" + hexs([]byte(pair[1])), "SetClientID:" + hexs([]byte(pair[1])),
+			"SetWill:[SetTopicName:" + hexs([]byte(pair[0])) + "]", "SetWill:[SetTopicName:" + hexs([]byte(pair[1])) + "]"})
+		check(8, []string{"AddFilter:" + hexs([]byte(pair[0])) + ":1", "AddFilter:" + hexs([]byte(pair[1])) + ":1"})
+		check(10, []string{"AddUnsubFilter:" + hexs([]byte(pair[0])), "AddUnsubFilter:" + hexs([]byte(pair[1]))})
 	}
 	// credentials in every combination and order, frame read back
 	for _, cs := range [][]string{{"SetPassword:7077"}, {"SetUsername:75", "SetPassword:7077", "SetUsername:-"},
@@ -2435,6 +2841,15 @@ func oracleC17(r *report, g *G, n int, single string) {
 		}()
 		p := build(k, cs)
 		judge(p, c, "built", cs)
+		// the rule is about the values the program set: a setter that quietly changes another
+		// field (and WellFormed agreeing with the changed field) is caught here
+		rec := newSpec(k)
+		for _, call := range cs {
+			rec.apply(call)
+		}
+		if got, want := snapshot(p), rec.snapshot(); got != want {
+			r.fail("wellformed-state", c, "the packet WellFormed judges is not the packet the calls built: accessors "+trunc(got)+", calls "+trunc(want))
+		}
 		o := readOnce(oneChunk(frameOf(p)))
 		if o.kind >= 0 {
 			judge(o.p, c, "decoded", nil)
@@ -2493,7 +2908,8 @@ func oracleC17(r *report, g *G, n int, single string) {
 		}
 	}
 	// Subscribe: number of filters x subscription id x all 256 option bytes x empty/non-empty
-	for _, sid := range []string{"", "0", "1", "268435454", "268435455", "268435456", "268435457", "-1", "-268435456"} {
+	for _, sid := range []string{"", "0", "1", "268435454", "268435455", "268435456", "268435457", "-1", "-268435456",
+		"4294967295", "4294967296", "4294967301", "4563402751", "13153337343", "-4294967291", "1099511627776", "9223372036854775807", "-9223372036854775808"} {
 		for nf := 0; nf <= 3; nf++ {
 			for rep := 0; rep < 8; rep++ {
 				var cs []string
@@ -2519,6 +2935,17 @@ func oracleC17(r *report, g *G, n int, single string) {
 	for i := 0; i < n; i++ {
 		k := []int{3, 8}[g.pick(2)]
 		check(k, g.calls(k, 1+g.pick(8)))
+	}
+	// QoS and packet identifier set in every order, QoS lowered and raised again
+	for _, pid := range []string{"1", "7", "65535"} {
+		for q1 := 0; q1 <= 4; q1++ {
+			for q2 := 0; q2 <= 4; q2++ {
+				for q3 := 1; q3 <= 2; q3++ {
+					check(3, []string{"SetTopicName:74", "SetPacketID:" + pid, "SetQoS:" + strconv.Itoa(q1), "SetQoS:" + strconv.Itoa(q2), "SetQoS:" + strconv.Itoa(q3)})
+					check(3, []string{"SetTopicName:74", "SetQoS:" + strconv.Itoa(q1), "SetPacketID:" + pid, "SetQoS:" + strconv.Itoa(q2), "SetQoS:" + strconv.Itoa(q3)})
+				}
+			}
+		}
 	}
 	r.sample(map[string]string{"case": "H 3 SetTopicAlias:3", "expect": "well formed (alias instead of topic)"})
 }
@@ -2570,6 +2997,9 @@ func oracleC18(r *report, g *G, n int, single string) {
 		if g.chance(40) {
 			at = len(cs)
 		}
+		if len(cs) >= 2 && strings.HasPrefix(cs[1], "~Feed:") && at < 2 {
+			at = 2 + g.pick(len(cs)-1)
+		}
 		mk := func(u, pw []byte) []string {
 			out := append([]string{}, cs[:at]...)
 			out = append(out, "SetUsername:"+hexs(u), "SetPassword:"+hexs(pw))
@@ -2589,7 +3019,7 @@ func oracleC18(r *report, g *G, n int, single string) {
 		}
 		// the same after a trip over the wire
 		oa, ob := readOnce(oneChunk(frameOf(a))), readOnce(oneChunk(frameOf(b)))
-		if oa.kind == 1 && ob.kind == 1 {
+		if oa.kind == 1 && ob.kind == 1 && len(u1) <= 65535 && len(p1) <= 65535 { // longer ones do not fit a frame
 			sa, da, _ = renderBoth(oa.p)
 			sb, db, _ = renderBoth(ob.p)
 			if sa != sb || da != db {
@@ -2669,8 +3099,36 @@ func oracleC18(r *report, g *G, n int, single string) {
 			pat := []string{"%u", "%c", "a/%u/%c", "%u/%p", "${username}", "$user"}[g.pick(6)]
 			filtered = append(filtered, "SetWill:[SetTopicName:"+hexs([]byte(pat))+";SetPayload:"+hexs([]byte(pat))+";SetResponseTopic:"+hexs([]byte(pat))+"]")
 		}
+		if g.chance(20) {
+			// an earlier password went from Password() into a field that is printed in clear;
+			// the password set later must not show through
+			filtered = append([]string{"SetPassword:" + hexs(g.bytesN(len(p1)+g.pick(6))), []string{"~Feed:Password>AuthData", "~Feed:Password>AuthData"}[g.pick(2)]}, filtered...)
+			var f2 []string
+			for _, c := range filtered {
+				if !strings.HasPrefix(c, "SetAuthData:") {
+					f2 = append(f2, c)
+				}
+			}
+			filtered = f2
+		}
 		g.ascii = false
 		check(filtered, u1, p1, u2, p2)
+	}
+	// credentials at and beyond the 65 535-byte limit: same length, different bytes around the limit
+	for _, l := range []int{65534, 65535, 65536, 65537, 70000} {
+		u1 := bytesRepeat('a', l)
+		for _, tail := range [][]byte{[]byte("\xc3\xa9"), []byte("\xe2\x82\xac"), []byte("\xf0\x9f\x98\x80")} {
+			for shift := 0; shift < len(tail); shift++ {
+				at := 65535 - shift
+				if at+len(tail) > l || at < 0 {
+					continue
+				}
+				u2 := append([]byte{}, u1...)
+				copy(u2[at:], tail)
+				check([]string{"SetClientID:63"}, u1, []byte("pw"), u2, []byte("pw"))
+				check([]string{"SetClientID:63"}, []byte("us"), u1, []byte("us"), u2)
+			}
+		}
 	}
 	r.sample(map[string]string{"pair": "user ab / zz, password 1 / 9, otherwise equal", "check": "String and Dump byte-identical, built and decoded"})
 }
@@ -2746,6 +3204,55 @@ func oracleC19(r *report, g *G, n int, single string) {
 		render(build(k, cs), c)
 		r.eval("history", true, c)
 	}
+	// packets under construction in states a program can reach through the API: the will
+	// taken away again (if the setter accepts nil), attached twice, changed after attaching
+	for _, cs := range [][]string{{"SetWill:[SetTopicName:74]", "SetWill:nil"}, {"SetWill:nil"}, {"SetWill:[SetQoS:2;SetRetain:1]", "SetWill:nil", "SetUsername:75"},
+		{"SetWill:[SetTopicName:74]", "~WillSet:SetQoS:3", "~WillSet:SetTopicName:-"}, {"SetWill:[]", "SetWill:[SetTopicName:74]", "SetWill:nil", "SetWill:[SetQoS:1]"}} {
+		c := "S 1" + sp(cs)
+		var p mq.Packet
+		ok := func() (ok bool) {
+			defer func() { recover() }() // a setter that refuses nil is not String's business
+			p = build(1, cs)
+			return true
+		}()
+		if ok {
+			render(p, c)
+		}
+		// the same on a CONNECT that came from the wire with a will
+		if o := readOnce(oneChunk(frameOf(build(1, []string{"SetClientID:63", "SetWill:[SetTopicName:74;SetQoS:1]"})))); o.kind == 1 {
+			ok := func() (ok bool) {
+				defer func() { recover() }()
+				for _, call := range cs {
+					applyCall(o.p, call)
+				}
+				return true
+			}()
+			if ok {
+				render(o.p, c+" (on a decoded CONNECT)")
+			}
+		}
+		r.eval("will-states", true, c)
+	}
+	// a PUBLISH too large for any frame (String prints a size): the payload is reserved, not filled
+	func() {
+		defer func() {
+			if e := recover(); e != nil {
+				r.fail("render-panic", "S 3 SetTopicName:612f62 SetPayload:<268435456 bytes>", fmt.Sprint(e))
+			}
+		}()
+		p := mq.NewPublish()
+		p.SetTopicName("a/b")
+		p.SetPayload(make([]byte, 268435456))
+		_ = p.String()
+		p.SetPayload(make([]byte, 268435450))
+		_ = p.String()
+		c := mq.NewConnect()
+		w := mq.NewPublish()
+		w.SetTopicName("a/b")
+		c.SetWill(w)
+		_ = c.String()
+		r.eval("giant-publish", true, "giant")
+	}()
 	// successful decodes of hostile bytes
 	g.hostileFrames(n, func(f []byte) {
 		o := readOnce(oneChunk(f))
@@ -2842,10 +3349,21 @@ func pollute(g *G) {
 			un(int(f[0]>>4), f[hl:], 1+g.pick(2))
 			if m := g.mutate(f); g.chance(30) && len(m) > hl {
 				un(int(f[0]>>4), m[hl:], 1)
+				readOnce(oneChunk(m))
+			}
+			if g.chance(30) && len(f) > hl+1 {
+				// a frame whose content is cut short, through ReadPacket (remaining length adjusted)
+				cut := f[hl : hl+1+g.pick(len(f)-hl-1)]
+				readOnce(oneChunk(append(append([]byte{f[0]}, vbEnc(uint64(len(cut)))...), cut...)))
 			}
 		}
 	}
 	g.nomagic = old
+	for _, b0 := range []byte{0x20, 0x30, 0x40, 0x50, 0x62, 0x70, 0x82, 0x90, 0xa2, 0xb0, 0xe0, 0xf0, 0x10} {
+		for _, body := range [][]byte{{0, 1, 0x10, 5}, {0, 1, 0, 2, 0x30, 0}, {0, 1}, {0}, {0, 1, 0, 0xff}} {
+			readOnce(oneChunk(append([]byte{b0, byte(len(body))}, body...)))
+		}
+	}
 	// last, so that nothing decoded later can put things right again: protocol names
 	// other than the default one
 	for _, nm := range []string{"MQTT", "MQIsdp", "abc", "x", "mq", "\x00\x00\x00\x00", "MQIs", "mqtt"} {
@@ -2941,6 +3459,16 @@ func oracleC02(r *report, g *G, n int, single string) {
 			return
 		}
 		snap := snapshot(p)
+		if !validityOnly {
+			rec := newSpec(k)
+			for _, call := range cs {
+				rec.apply(call)
+			}
+			if want := rec.snapshot(); snap != want {
+				r.fail("frame-carries-other-values", c, "the packet does not hold what the calls set (so neither can its frame): accessors "+trunc(snap)+", calls "+trunc(want))
+				return
+			}
+		}
 		if snap == "" {
 			snap = "."
 		}
@@ -2994,7 +3522,18 @@ func oracleC02(r *report, g *G, n int, single string) {
 					cs = append(cs, "SetTopicName:742f31", "SetPacketID:"+strconv.Itoa(1+g.pick(65535)))
 				}
 			}
-			add(k, domainFix(k, cs))
+			cs = domainFix(k, cs)
+			if hasSetter(k, "AddUserProp") && g.chance(20) {
+				var items []string
+				g.domain = true
+				for j := 0; j < 2+g.pick(3); j++ {
+					items = append(items, strings.TrimPrefix(g.arg(setter{"AddUserProp", "up"}), "AddUserProp:"))
+				}
+				g.domain = false
+				at := g.pick(len(cs) + 1)
+				cs = append(append(append([]string{}, cs[:at]...), "~UserProps:"+strings.Join(items, ",")), cs[at:]...)
+			}
+			add(k, cs)
 		}
 		// just outside the round-trip domain, where the frame must still be valid MQTT although
 		// not every value set can be carried: a will that has a topic alias, subscription
@@ -3084,12 +3623,24 @@ func oracleC03(r *report, g *G, n int, single string) {
 		case o.snap != want:
 			r.fail(key+"-misread", c, "frame carries "+trunc(want)+" library reports "+trunc(o.snap))
 		}
+		// a valid frame is a valid frame however its bytes arrive: the last bytes together with
+		// io.EOF (allowed by io.Reader), in two pieces, through the standard readers
+		if o.kind >= 0 && len(f) >= 2 {
+			for i, rd := range []io.Reader{scriptOf(f, []int{len(f)}, false, 1), scriptOf(f, []int{len(f) / 2, len(f) - len(f)/2}, true, 1),
+				iotest.DataErrReader(bytes.NewReader(f)), bytes.NewBuffer(append([]byte{}, f...)), bufio.NewReaderSize(bytes.NewReader(f), 16)} {
+				if o2 := readNative(rd, f); o2.verdict() != o.verdict() {
+					r.fail(key+"-delivery", c, fmt.Sprintf("delivery %d: %s, in one piece %s", i, trunc(o2.verdict()), trunc(o.verdict())))
+					break
+				}
+			}
+		}
 		form := "long"
 		if len(f) <= 5 {
 			form = "short"
 		}
 		r.eval(fmt.Sprintf("type%d-%s", f[0]>>4, form), len(f) > 2, hexFrame)
 	}
+	pollute(g) // frames rejected or decoded earlier in the process must not matter
 	if single != "" {
 		f := splitWS(single)
 		if len(f) == 2 && f[0] == "SR" {
@@ -3176,6 +3727,60 @@ func oracleC09(r *report, g *G, n int, single string) {
 		}
 	}
 	stat("spec_accepted_variants_skipped", skipped)
+	// the flags nibble of the first byte does not choose the decoder: a body that must be
+	// rejected must be rejected under every flags nibble (PUBLISH excepted, whose flags
+	// change the layout)
+	cnt := 0
+	for _, l := range out {
+		f := strings.Fields(l)
+		if len(f) == 4 && f[0] == "X" && f[3] == "spec-rejects" && cnt < n/4+50 && len(f[2]) < 600 {
+			fr := unhex(f[2])
+			if len(fr) < 2 || fr[0]>>4 == 3 || strings.HasPrefix(f[1], "vb5-remaining") {
+				continue
+			}
+			fr2 := append([]byte{}, fr...)
+			fr2[0] = fr[0]&0xf0 | byte(g.pick(16))
+			check(f[1]+"-other-flags", hexs(fr2))
+			cnt++
+		}
+	}
+	// a subscription identifier in a packet that has no use for it is read and dropped - but
+	// read it must be: five bytes, or the data ending inside it, is an error there too
+	for i := 0; i < n/10+40; i++ {
+		f := g.soupFrame()
+		_, hl := splitFrame(f)
+		body := append([]byte{}, f[hl:]...)
+		at := bytes.IndexByte(body, 0x0b)
+		if at < 1 || f[0]>>4 == 3 && false {
+			continue
+		}
+		// make sure this 0x0b is an identifier: rebuild a frame whose only property is it
+		bad := [][]byte{{0x0b, 0x80, 0x80, 0x80, 0x80, 0x01}, {0x0b, 0xff, 0xff, 0xff, 0xff, 0x7f}, {0x0b, 0x80, 0x80, 0x80, 0x80, 0x00}}[g.pick(3)]
+		props := append(vbEnc(uint64(len(bad))), bad...)
+		var fr []byte
+		switch g.pick(7) {
+		case 0:
+			fr = append([]byte{0x20}, append(vbEnc(uint64(2+len(props))), append([]byte{0, 0}, props...)...)...)
+		case 1:
+			fr = append([]byte{0x40}, append(vbEnc(uint64(3+len(props))), append([]byte{0, 7, 0}, props...)...)...)
+		case 2:
+			fr = append([]byte{0xe0}, append(vbEnc(uint64(1+len(props))), append([]byte{0}, props...)...)...)
+		case 3:
+			fr = append([]byte{0xf0}, append(vbEnc(uint64(1+len(props))), append([]byte{0}, props...)...)...)
+		case 4:
+			fr = append([]byte{0x90}, append(vbEnc(uint64(3+len(props))), append(append([]byte{0, 7}, props...), 0)...)...)
+		case 5:
+			fr = append([]byte{0xa2}, append(vbEnc(uint64(5+len(props))), append(append([]byte{0, 7}, props...), 0, 1, 'a')...)...)
+		default:
+			fr = append([]byte{0x30}, append(vbEnc(uint64(3+len(props))), append([]byte{0, 1, 't'}, props...)...)...)
+		}
+		check("vb5-subid-stray", hexs(fr))
+		// ... and the data ending on a continuation byte of it
+		cutp := []byte{0x0b, 0x80}
+		props2 := append(vbEnc(uint64(len(cutp))), cutp...)
+		check("cut-subid-stray", hexs(append([]byte{0xe0}, append(vbEnc(uint64(1+len(props2))), append([]byte{0}, props2...)...)...)))
+		check("cut-subid-stray", hexs(append([]byte{0x20}, append(vbEnc(uint64(2+len(props2))), append([]byte{0, 0}, props2...)...)...)))
+	}
 	r.sample(map[string]string{"frame": "2003000080", "class": "cut inside a multi-byte property length", "expect": "error, no packet"})
 }
 
@@ -3617,6 +4222,44 @@ func shareAndDecode(g *G, pool []mq.Packet, frames [][]byte, i int) {
 			_, h2 := splitFrame(f2)
 			tmp.UnmarshalBinary(append([]byte{}, f2[h2:]...))
 		}
+	}
+	// ... or clears and replaces them: the packet they came from keeps its bytes
+	switch a := tmp.(type) {
+	case *mq.Publish:
+		b := pool[i].(*mq.Publish)
+		a.SetCorrelationData(b.CorrelationData())
+		a.SetPayload(b.Payload())
+		a.SetCorrelationData(nil)
+		a.SetPayload([]byte{})
+		a.SetPayload([]byte("x"))
+	case *mq.Connect:
+		b := pool[i].(*mq.Connect)
+		a.SetAuthData(b.AuthData())
+		a.SetPassword(b.Password())
+		a.SetPassword(nil)
+		a.SetAuthData([]byte{})
+		a.SetPassword([]byte("y"))
+		if w := b.Will(); w != nil {
+			// the will message of one CONNECT attached to another, which is then used as the
+			// target of a decode: the first CONNECT (and its will) stay what they were
+			a.SetWill(w)
+			for n := 0; n < 4; n++ {
+				f2 := g.validFrame()
+				if int(f2[0]>>4) == 1 && len(f2) < 3000 {
+					_, h2 := splitFrame(f2)
+					a.UnmarshalBinary(append([]byte{}, f2[h2:]...))
+				}
+			}
+			wf := frameOf(build(1, []string{"SetClientID:63", "SetWill:[SetTopicName:6f74686572;SetQoS:2;SetRetain:1;SetPayload:6f74686572;AddUserProp:6b:76]"}))
+			_, h2 := splitFrame(wf)
+			a.UnmarshalBinary(append([]byte{}, wf[h2:]...))
+		}
+	case *mq.ConnAck:
+		a.SetAuthData(pool[i].(*mq.ConnAck).AuthData())
+		a.SetAuthData(nil)
+	case *mq.Auth:
+		a.SetAuthData(pool[i].(*mq.Auth).AuthData())
+		a.SetAuthData(nil)
 	}
 }
 
